@@ -1,0 +1,22 @@
+//go:build verif
+
+package age
+
+// Ghost lemma functions for govc (see /verif/DESIGN.md section 8.8): never
+// called by the package; compiled only with -tags verif. Each composes two
+// functions through their CONTRACTS (the verifier never looks inside a callee),
+// so a passing proof means the contracts are strong enough to carry the
+// round-trip sentence of property C01.
+
+//@ func verifLemmaX25519RoundTrip(r, i, fileKey) (fk, werr, uerr)
+//@   requires r != nil && i != nil && len(fileKey) == 16 && len(r.theirPublicKey) == 32 && len(i.secretKey) == 32 && len(i.ourPublicKey) == 32
+//@   requires#match bytes(r.theirPublicKey) == bytes(i.ourPublicKey) && bytes(i.ourPublicKey) == x25519(bytes(i.secretKey), basepoint()) && x25519ok(bytes(i.secretKey), basepoint())
+//@   ensures#roundtrip werr == nil ==> uerr == nil && bytes(fk) == old(bytes(fileKey))                                             [C01]
+func verifLemmaX25519RoundTrip(r *X25519Recipient, i *X25519Identity, fileKey []byte) (fk []byte, werr, uerr error) {
+	stanzas, werr := r.Wrap(fileKey)
+	if werr != nil {
+		return nil, werr, nil
+	}
+	fk, uerr = i.Unwrap(stanzas)
+	return fk, nil, uerr
+}
